@@ -473,7 +473,14 @@ func (parser *Parser) ParseExpression(depth int) (res Sexp, err error) {
 	case TokenSymbol:
 		if tok.str == "-" || tok.str == "+" {
 			// are we -Inf ?
-			tok2, err := parser.ParserPeekNextToken(0)
+			var tok2 Token
+			if depth == 0 {
+				// at top level a lone + or - is a complete text:
+				// look at what is there, but do not ask for more input.
+				tok2, err = lexer.PeekNextToken(0)
+			} else {
+				tok2, err = parser.ParserPeekNextToken(0)
+			}
 			if err != nil {
 				return SexpEnd, err
 			}
